@@ -95,6 +95,20 @@ class _HookBus:
         no = len(rig.frames)
         if rig.on_frame is not None:
             rig.on_frame(no, frame)
+        if faults and faults.get("echo"):
+            # the frame comes back as it was sent: nobody on the bus has
+            # seen it.  What healthy terminals would have answered tells
+            # which counters are wrong now.
+            import copy
+            from . import frames as fr
+            healthy = copy.deepcopy(rig.bus).process_frame(frame, None)
+            length, ftype, dgs, end = fr.parse(bytes(healthy))
+            rig.applied[no] = {i: -d.wkc for i, d in enumerate(dgs) if d.wkc}
+            back = bytes(frame)
+            if rig.on_response is not None:
+                back = rig.on_response(no, bytes(frame), bytes(back))
+            rig.frames.append((bytes(frame), bytes(back)))
+            return back
         back = rig.bus.process_frame(frame, faults)
         if faults and faults.get("wkc"):
             back = bytearray(back)
